@@ -84,6 +84,23 @@ static void checkAllOnce(const char* when) {
   }
 }
 
+// scheduleBulk with the generator contract checked: when the call returns, the generator has been asked
+// for every index exactly once (a task that was never generated can never run, whatever happens later)
+template <typename S>
+static void bulkChecked(S& sched, std::vector<Body>& bs) {
+  std::vector<int> asked(bs.size(), 0);
+  sched.scheduleBulk(bs.size(), [&bs, &asked](size_t j) {
+    asked[j]++;
+    return bs[j];
+  });
+  for (size_t j = 0; j < bs.size(); ++j)
+    if (asked[j] != 1) {
+      int api = tag(bs[j].tag).api;
+      sim_fail((std::string(apiName(api)) + (asked[j] ? ":bulk-index-generated-twice" : ":bulk-index-never-generated")).c_str(),
+               "scheduleBulk(%zu) returned having asked the generator %d times for index %zu", bs.size(), asked[j], j);
+    }
+}
+
 // -------------------------------------------------------------------------------------------
 // producers used by C03 / C08
 // -------------------------------------------------------------------------------------------
@@ -102,7 +119,7 @@ static void directProducer(int nOps) {
         int n = range(1, 12);
         for (int k = 0; k < n; ++k)
           bs.push_back(mk(A_BULK));
-        pool.scheduleBulk(bs.size(), [&bs](size_t j) { return bs[j]; });
+        bulkChecked(pool, bs);
       }
     }
     sim_work((int)pick(3));
@@ -124,13 +141,13 @@ static void taskSetProducer(int rounds) {
         std::vector<Body> bs;
         for (int k = 0; k < n; ++k)
           bs.push_back(mk(A_TS_BULK_RING));
-        ts.scheduleBulk(bs.size(), [&bs](size_t j) { return bs[j]; });
+        bulkChecked(ts, bs);
       } else if (chance(1, 2)) {
         std::vector<Body> bs;
         int n = range(1, 10);
         for (int k = 0; k < n; ++k)
           bs.push_back(mk(A_TS_BULK));
-        ts.scheduleBulk(bs.size(), [&bs](size_t j) { return bs[j]; });
+        bulkChecked(ts, bs);
       } else {
         ts.schedule(mk(A_TS_SCHED));
       }
@@ -161,7 +178,7 @@ static void ctsProducer(int rounds) {
         int n = range(1, 8);
         for (int k = 0; k < n; ++k)
           bs.push_back(mk(A_CTS_BULK));
-        ts.scheduleBulk(bs.size(), [&bs](size_t j) { return bs[j]; });
+        bulkChecked(ts, bs);
       } else {
         ts.schedule(mk(A_CTS_SCHED));
       }
@@ -319,7 +336,7 @@ static void wlAccounting() {
           std::vector<Body> bs;
           for (int k = 0; k < n; ++k)
             bs.push_back(mk(A_TS_BULK_RING));
-          ts.scheduleBulk(bs.size(), [&bs](size_t j) { return bs[j]; });
+          bulkChecked(ts, bs);
         }
         int ns = range(0, 5);
         pool.resize(ns);
@@ -377,8 +394,11 @@ static void wlShutdown() {
   int threadsBefore = sim_count_threads();
   ctx.pool = new dispenso::ThreadPool((size_t)nThreads);
   dispenso::ThreadPool& pool = *ctx.pool;
+  // poll mode: a short period, or one so long that a shutdown which waits for it out is unmistakable
+  bool longPoll = poll && chance(1, 2);
+  sim_note("longpoll", longPoll);
   if (poll)
-    pool.setSignalingWake(false, std::chrono::microseconds(200));
+    pool.setSignalingWake(false, std::chrono::microseconds(longPoll ? 2000000 : 200));
   if (load == 1 || load == 3) {
     int n = range(1, 20);
     for (int i = 0; i < n; ++i)
@@ -426,6 +446,14 @@ static void wlShutdown() {
     snprintf(cls, sizeof cls, "backstop-needed:%s:load%d", callName, load);
     sim_fail(cls, "%s (wake mode, %d threads) could only finish after %llu worker wait timeout(s) expired with nothing else runnable",
              callName, nThreads, (unsigned long long)(idleAfter - idleBefore));
+  }
+  // Poll mode: picking up *tasks* legitimately waits for the poll period, but stopping the workers does
+  // not (stop/resize/mode switch wake every parked worker); judged on an idle pool only.
+  if (poll && load == 0 && idleAfter != idleBefore) {
+    char cls[128];
+    snprintf(cls, sizeof cls, "backstop-needed:%s:poll-mode:idle", callName);
+    sim_fail(cls, "%s (poll mode, period %s, %d idle threads) could only finish after %llu worker sleep period(s) expired",
+             callName, longPoll ? "2 s" : "200 us", nThreads, (unsigned long long)(idleAfter - idleBefore));
   }
   int live = sim_count_threads() - threadsBefore;
   if (live != expectThreads) {
